@@ -148,6 +148,26 @@ def assumptions(pid: str, workdir: Path) -> dict[str, str]:
     return out
 
 
+def coqchk(pid: str, timeout: int = 1500) -> dict:
+    """Independent re-check of Props/<pid>.vo and everything it depends on (thorough tier)."""
+    try:
+        r = subprocess.run(["coqchk", "-o", "-silent", "-R", str(THEORIES), "Serif", f"Serif.Props.{pid}"],
+                           capture_output=True, text=True, timeout=timeout, cwd=str(COQ))
+    except subprocess.TimeoutExpired:
+        return {"ok": False, "summary": "coqchk timed out"}
+    out = r.stdout + r.stderr
+    m = re.search(r"\* Axioms:(.*?)\n\s*\n\* Constants/Inductives relying on type-in-type:(.*?)\n\s*\n"
+                  r"\* Constants/Inductives relying on unsafe \(co\)fixpoints:(.*?)\n\s*\n"
+                  r"\* Inductives whose positivity is assumed:(.*?)\n", out, flags=re.S)
+    if r.returncode != 0 or not m:
+        return {"ok": False, "summary": out[-600:]}
+    parts = [" ".join(x.split()) for x in m.groups()]
+    ok = all(x == "<none>" for x in parts[1:]) and (parts[0] == "<none>" or all(
+        n.split(".")[-1] in ALLOWED_AXIOMS for n in re.findall(r"[A-Za-z0-9_.']+", parts[0])))
+    return {"ok": ok, "summary": f"axioms: {parts[0]}; type-in-type: {parts[1]}; unsafe fixpoints: {parts[2]}; "
+                                 f"assumed positivity: {parts[3]}"}
+
+
 def axioms_ok(text: str) -> bool:
     if text.startswith("Closed under the global context"):
         return True
@@ -330,6 +350,13 @@ def run_property(mod, tier: str, seed: int, replay: str | None = None) -> int:
             assum = {n: "ERROR: development does not build" for n in thms}
         discharged = [n for n in thms if axioms_ok(assum.get(n, "ERROR"))] if (ok and not forb) else []
         proof_broken = (not ok) or bool(forb) or len(discharged) != len(thms) or not thms
+        chk = None
+        if ok and tier == "thorough" and not replay:
+            with coq_read_lock():
+                chk = coqchk(pid)
+            if not chk["ok"]:
+                proof_broken = True
+                res.notes.append("coqchk: " + chk["summary"])
         if not ok:
             res.notes.append("coq build failed: " + log[-1500:])
         if forb:
@@ -489,6 +516,7 @@ def run_property(mod, tier: str, seed: int, replay: str | None = None) -> int:
                     "hand-written Gallina model tied to /repo by the correspondence check below",
                     "harness: generators, impl observer, Coq term printers (harness/props/%s.py)" % modname,
                 ] + tb + list(getattr(mod, "ASSUMED", [])),
+                "coqchk": (chk["summary"] if chk else "not run in the quick tier"),
                 "evaluations": len(all_cases),
                 "distinct_nontrivial": len(nontriv),
                 "rule": mod.RULE,
